@@ -62,6 +62,36 @@ func sortedStrict[T comparable](c *core.Ctx, tname string, gen func(*core.Rand) 
 			input[i] = gen(r)
 		}
 	}
+	// a third of the non-trivial inputs are structured: a long already-sorted prefix
+	// followed by an unsorted remainder (some of it smaller than the first value),
+	// fully sorted, or reversed - the habitat of adaptive constructors
+	if len(input) >= 4 && r.Chance(1, 3) {
+		sort.SliceStable(input, func(i, j int) bool { return less(input[i], input[j]) })
+		switch r.Intn(3) {
+		case 0: // sorted prefix covering at least half, random remainder
+			p := r.Range(len(input)/2, len(input)-1)
+			tail := input[p:]
+			for i := len(tail) - 1; i > 0; i-- {
+				j := r.Intn(i + 1)
+				tail[i], tail[j] = tail[j], tail[i]
+			}
+			// move some of the smallest values into the remainder
+			for k := 0; k < 1+r.Intn(2) && p+k < len(input); k++ {
+				input[k], input[p+k] = input[p+k], input[k]
+			}
+			// keep the prefix ascending after the exchange
+			pre := input[:p]
+			sort.SliceStable(pre, func(i, j int) bool { return less(pre[i], pre[j]) })
+			c.Count("input_sorted_prefix_plus_remainder", 1)
+		case 1:
+			c.Count("input_sorted", 1)
+		case 2:
+			for i, j := 0, len(input)-1; i < j; i, j = i+1, j-1 {
+				input[i], input[j] = input[j], input[i]
+			}
+			c.Count("input_reversed", 1)
+		}
+	}
 	snap := append([]T(nil), input...)
 	hist = append(hist, fmt.Sprintf("NewSorted(%v)", input))
 	var s slices.Sorted[T]
